@@ -34,6 +34,46 @@ type Thread struct {
 	why    string      // label of the last point / block reason
 	steps  int
 	woken  bool // for sleeping threads: some other thread stepped since
+	atomic int  // >0: Points are suppressed (function executed as one step)
+	limit  int  // per-thread call horizon (0 = Options.ThreadSteps)
+	calls  int  // Point calls (counted even inside atomic regions: recursion horizon)
+}
+
+// SetCallLimit gives the running thread its own horizon (Point calls since the last
+// ResetCalls); 0 restores the default (Options.ThreadSteps).
+func SetCallLimit(n int) {
+	if Active() && s.cur != nil {
+		s.cur.limit = n
+	}
+}
+
+// ResetCalls restarts the running thread's Point-call counter (per-operation horizons).
+func ResetCalls() {
+	if Active() && s.cur != nil {
+		s.cur.calls = 0
+	}
+}
+
+// Why returns the label at which thread id last parked ("" if unknown).
+func Why(id int) string {
+	if !Active() || id < 0 || id >= len(s.threads) {
+		return ""
+	}
+	return s.threads[id].why
+}
+
+// AtomicEnter / AtomicLeave bracket a region executed as a single scheduler step: Points
+// inside are no-ops (blocking operations still hand over control when they must wait).
+func AtomicEnter() {
+	if Active() && s.cur != nil {
+		s.cur.atomic++
+	}
+}
+
+func AtomicLeave() {
+	if Active() && s.cur != nil && s.cur.atomic > 0 {
+		s.cur.atomic--
+	}
 }
 
 // ChoicePoint is one scheduling decision with more than one enabled thread.
@@ -52,6 +92,7 @@ type Result struct {
 	Panic      string // non-empty: first panic in a thread (with stack)
 	PanicVal   string
 	Horizon    string // non-empty: step horizon exceeded
+	HorizonAt  string
 	Diverged   string // replay prefix could not be followed
 	Log        []string
 	AbortStuck bool
@@ -373,9 +414,25 @@ func Point(label string) {
 		return
 	}
 	t := sc.cur
+	t.calls++
+	lim := sc.opts.ThreadSteps
+	if t.limit > 0 {
+		lim = t.limit
+	}
+	if t.atomic > 0 && t.calls <= lim {
+		return
+	}
 	t.why = label
-	if t.steps > sc.opts.ThreadSteps {
-		sc.res.Horizon = fmt.Sprintf("thread %d (%s) exceeded %d steps at %s", t.ID, t.Name, sc.opts.ThreadSteps, label)
+	if t.calls > lim {
+		sc.res.Horizon = fmt.Sprintf("thread %d (%s) exceeded %d steps", t.ID, t.Name, lim)
+		sc.res.HorizonAt = label
+		if sc.opts.KeepLog {
+			st := debug.Stack()
+			if len(st) > 6000 {
+				st = st[:6000]
+			}
+			sc.res.Log = append(sc.res.Log, "horizon stack:\n"+string(st))
+		}
 		sc.aborting = true
 		panic(abortT{})
 	}
